@@ -110,6 +110,11 @@ func invDifference[T comparable](s, s2, result Set[T]) bool {
 	})
 }
 
+// posIn: ghost - a position of x in r (meaningful only where a contract says so).
+//
+//verif:pure posIn
+func posIn[T comparable](r []T, x T) int { panic(verif.NotExecutable{"posIn"}) }
+
 // Assumed, not proved (trusted): the one missing obligation is the existential direction of the loop
 // invariant across append's copy; the other 14 obligations are discharged.
 //
@@ -118,6 +123,10 @@ func ctUnsortedList[T comparable](s Set[T]) {
 	r := s.UnsortedList()
 	verif.Ensures("fresh", verif.Fresh(r))
 	verif.Ensures("lists-exactly-the-elements", verif.Forall(func(x T) bool { return inPrefix(r, len(r), x) == has(s, x) }))
+	// the same with a named witness (the position of x in the list), for proofs that need one
+	verif.Ensures("every-element-has-a-position", verif.Forall(func(x T) bool {
+		return !has(s, x) || (0 <= posIn(r, x) && posIn(r, x) < len(r) && r[posIn(r, x)] == x)
+	}))
 	verif.Ensures("receiver-unchanged", verif.Forall(func(x T) bool { return has(s, x) == verif.Old(func() bool { return has(s, x) }) }))
 }
 
